@@ -196,12 +196,18 @@ func vttGenModel(r *fw.Rand, forWriter bool) vttModel {
 			}
 			txt := genText(r, textOpts{amp: true, lt: true, gt: true, nbsp: true, braces: true, comma: true, ampEntity: true, maxWords: 5})
 			pieces := splitRuns(r, txt, r.Range(1, 4))
+			// a text line that begins like a block of another kind: inside a cue it is text all the same
+			keyword := r.P(1, 12)
+			if keyword {
+				line.Voice, stack = "", nil
+				pieces[0] = fw.Pick(r, []string{"NOTE to self:", "NOTES", "NOTEBOOK", "STYLE", "STYLED", "STYLE ::cue {", "Region: west", "Regional", "X-TIMESTAMP-MAP=LOCAL:00:00:00.000,MPEGTS:0"}) + " " + pieces[0]
+			}
 			tsOn := false
 			var ts int64
 			for pi, p := range pieces {
 				if !(forWriter && false) {
 					// change the stack between segments
-					if pi > 0 || r.Bool() {
+					if (pi > 0 || r.Bool()) && !(keyword && pi == 0) {
 						for len(stack) > 0 && r.P(1, 2) {
 							stack = stack[:len(stack)-1]
 						}
@@ -285,7 +291,15 @@ func vttEscape(s, following string, all bool) string {
 	var b strings.Builder
 	rs := []rune(s)
 	for i, c := range rs {
-		rest := string(rs[i:]) + following
+		// (a window of what follows is enough for the look-ahead; the whole rest would make long lines quadratic)
+		end := i + 12
+		if end > len(rs) {
+			end = len(rs)
+		}
+		rest := string(rs[i:end])
+		if end == len(rs) {
+			rest += trunc(following, 12)
+		}
 		switch {
 		case c == '&':
 			if all || strings.HasPrefix(rest, "&amp;") || strings.HasPrefix(rest, "&lt;") || strings.HasPrefix(rest, "&nbsp;") {
@@ -1005,7 +1019,7 @@ func init() {
 		Level: "exploration",
 		Rule: "reader cases: a random ground-truth WebVTT model (0..6 cues with ms times, numeric ids, 0..2-line NOTE comments, 0..3 regions in this library's 'Region: id=.. key=value' form with six attributes, cue settings subsets incl. region references, 0..2 STYLE blocks (also with a blank line inside an open block), optional X-TIMESTAMP-MAP in either key order, per line an optional voice, 1..4 segments with tag stacks of depth 0..3 over b/i/u/c.class[.class]/lang xx/ruby/rt carried across lines, inline timestamps placed before or after the opening tags) rendered 4 ways (EOL kinds, BOM, hh: optional, id numeric/absent/non-numeric, tabs or spaces before settings, header trailing text, </v> present or not, minimal or full escaping, region/style block order, shuffled settings) and read by the library; the projection must equal the model rune by rune (tag stack and timestamp per rune). " +
 			"writer cases: the models built from public types, written, decoded by the harness's own decoder (which rejects a region reference not defined earlier, misnested tags, out-of-range fields) and by the library reader; both must equal the model with ids 1..n. sweep cases: every block of 256 code points (quick: the BMP and one block per other plane; thorough: all 4352 blocks) written as cue text, 32 characters to a cue, and read back unchanged (white space, controls and the markup characters of the format left out). distinct_nontrivial = distinct documents compared.",
-		Assumptions: []string{"text lines do not begin with NOTE/STYLE/Region:, contain no '-->', have no white space at the edges; no white-space-only segment next to a timestamp; once a line has a timestamp every later segment of the line carries its own", "colour (<c.colour> derived from TTMLColor) is not part of the statement and is left unset", "a literal '<' is left raw only before a space or a tab"},
+		Assumptions: []string{"text lines contain no '-->' and have no white space at the edges (they may begin with NOTE, STYLE, Region: or X-TIMESTAMP-MAP: inside a cue that is text); no white-space-only segment next to a timestamp; once a line has a timestamp every later segment of the line carries its own", "colour (<c.colour> derived from TTMLColor) is not part of the statement and is left unset", "a literal '<' is left raw only before a space or a tab"},
 		Cases:       func(tier string) int64 { return 2*n(tier) + sweepBlocks(tier) },
 		Anchors:     []string{"ReadFromWebVTT", "parseTextWebVTT", "parseTextWebVTTTextToken", "parseWebVTTTimestampMap", "WriteToWebVTT", "Line.webVTTBytes", "LineItem.webVTTBytes", "WebVTTTag.startTag"},
 		Run: func(c *fw.Ctx) fw.Outcome {
